@@ -104,7 +104,9 @@ CHECK_DEADLOCK FALSE
         steps = lib_steps(prog)
         c2d = c2.C2Data(metadata=B(row["c2"]["metadata"]), id=B(row["c2"]["id"]), output=B(row["c2"]["output"]))
         base = B(row["base"])
-        req0 = lambda: c2.HttpRequest(method=b"GET", uri=base, params={}, headers={}, body=b"")  # noqa: E731
+        m0 = row["msg0"]
+        req0 = lambda: c2.HttpRequest(method=b"GET", uri=base, params={B(x["k"]): B(x["v"]) for x in m0["params"]},  # noqa: E731
+                                      headers={B(x["k"]): B(x["v"]) for x in m0["headers"]}, body=B(m0["body"]))
         brief = {"prog": [(s["op"], s["arg"]) for s in prog], "payload": row["c2"]["metadata"], "base": row["base"], "masks": row["masks"]}
         k = cls(prog)
         # (1) library encoding == specification encoding (same nonces)
@@ -167,7 +169,7 @@ CHECK_DEADLOCK FALSE
         init_params = {b"keep": b"1"} if rng.random() < 0.3 else {}
         init_headers = {b"User-Agent": b"UA"} if rng.random() < 0.5 else {}
         steps = lib_steps(prog)
-        req0 = c2.HttpRequest(method=b"POST", uri=base, params=dict(init_params), headers=dict(init_headers), body=b"")
+        req0 = c2.HttpRequest(method=b"POST", uri=base, params=dict(init_params), headers=dict(init_headers), body=rng.choice([b"", b"", b"previous body"]))
         msg0 = msg_of(req0)
         with Nonces(masks):
             o = core.outcome(lambda: T(steps=list(steps)).transform(c2.C2Data(**c2v), request=req0))
